@@ -1,7 +1,8 @@
 //! C08 executor: descriptive statistics through the public API of `compute`
 //! (free functions of `compute::statistics` and the `Vector` / `Matrix` methods).
 //!
-//! Requests (`form`: 0 = free function on a slice, 1 = `Vector` method; `tag` is a free-form
+//! Requests (`form`: 0 = free function on a slice, 1 = `Vector` method, 2 = `Matrix` method for the seven
+//! reductions mean var svar std sstd min max (other ops: same as 1); `tag` is a free-form
 //! regime label that is ignored here and dropped before the line reaches the model):
 //!   `<op> <form> <tag> <vec>`           op ∈ mean wmean var svar std sstd min max argmin argmax hbc
 //!   `<op> <form> <tag> <vec x> <vec y>` op ∈ cov scov scov1 scovo
@@ -10,6 +11,26 @@
 use compute::prelude::{Matrix, Vector};
 use compute::statistics as st;
 use cvexec::*;
+
+fn as_matrix(v: &[f64]) -> Matrix {
+    let n = v.len();
+    let mut r = 1;
+    let mut d = 1;
+    while d * d <= n {
+        if n % d == 0 {
+            r = d;
+        }
+        d += 1;
+    }
+    let (r, c) = if n == 0 {
+        (0, 0)
+    } else if n % 2 == 1 {
+        (n / r, r)
+    } else {
+        (r, n / r)
+    };
+    Matrix::new(v.to_vec(), r as i32, c as i32)
+}
 
 fn step(_: &mut (), t: &mut Toks) -> R<String> {
     let op = t.tok()?;
@@ -30,7 +51,7 @@ fn step(_: &mut (), t: &mut Toks) -> R<String> {
                     "min" => st::min(&v),
                     _ => st::max(&v),
                 }
-            } else {
+            } else if form == 1 {
                 let w = Vector::from(v.clone());
                 match op {
                     "mean" => w.mean(),
@@ -41,6 +62,21 @@ fn step(_: &mut (), t: &mut Toks) -> R<String> {
                     "sstd" => w.sample_std(),
                     "min" => w.min(),
                     _ => w.max(),
+                }
+            } else {
+                // form 2: the macro-generated `Matrix` reductions (matrix.rs `impl_reduction_fns_matrix!`),
+                // on an r x c matrix holding the same data: r = largest divisor of n with r*r <= n,
+                // orientation flipped for odd n (so 1 x n, n x 1 and non-square shapes all occur)
+                let m = as_matrix(&v);
+                match op {
+                    "mean" => m.mean(),
+                    "wmean" => st::welford_mean(m.data()),
+                    "var" => m.var(),
+                    "svar" => m.sample_var(),
+                    "std" => m.std(),
+                    "sstd" => m.sample_std(),
+                    "min" => m.min(),
+                    _ => m.max(),
                 }
             };
             Ok(ok(show_f(r)))
